@@ -571,3 +571,29 @@ Proof.
   destruct (MiB <? 16 + 6 * 1 + t)%N; destruct e as [|ty|]; reflexivity.
 Qed.
 Print Assumptions profile_requests_carry_one_row.
+
+(* ---- end to end for the log and metric routes -------------------------------------------------- *)
+
+(* For EVERY stream of onEntries calls (any label pairs, slice lengths, sample types, sizes, flushes; decoder panic or
+   typed/untyped error at any point) the system parser goroutine || channel || handler || drain goroutine ends with
+   everybody finished, the answer has the class the column-level interpreter over the regenerated onEntries computes
+   (compared with the real code by pipefuzz), the services keep their columns; and when the decoder keeps the
+   equal-length contract every request pushed on the way is rectangular.  Flushes are bounded by the bytes accounted. *)
+Theorem log_requests_end_to_end : forall evs,
+  exists r w', serve tame_model logs_prog consumer_model ctx_logs world0 (logs_dres logs_st0 (map abs_lev evs)) = (SAllDone r, w')
+    /\ cls_of_parse r = lcol_status gen_on_entries_cols gen_spl_fields gen_tsd_fields (lbatch0 gen_spl_fields gen_tsd_fields) evs
+    /\ world_ok w' = true
+    /\ (events_consistent evs = true ->
+        Forall (fun b => lbatch_rect b = true)
+               (sent_lbatches gen_on_entries_cols gen_spl_fields gen_tsd_fields (lbatch0 gen_spl_fields gen_tsd_fields) evs)).
+Proof.
+  apply (log_requests_end_to_end_gen gen_on_entries_cols gen_spl_fields gen_tsd_fields gen_spl_consumed gen_tsd_consumed).
+  vm_compute. reflexivity.
+Qed.
+Print Assumptions log_requests_end_to_end.
+
+Theorem log_flushes_bounded_by_bytes : forall evs st,
+  let '(f, _, s) := decode_logs st evs in
+  (N.of_nat (List.length f) * MiB + ls_size s <= ls_size st + logs_bytes evs)%N.
+Proof. exact decode_logs_flush_bytes. Qed.
+Print Assumptions log_flushes_bounded_by_bytes.
